@@ -333,8 +333,8 @@ func tokBtoTok(in []TokB) []Tok {
 func init() {
 	register(&CheckDef{
 		ID: "C12", Level: "fault_enumeration",
-		Technique: "deterministic simulation of the client-side index store with storage-fault enumeration (every truncation, single-bit flip, kind byte, byte drop/dup/swap per sampled record) plus seeded multi-fault and free-form search; model decoder as oracle",
-		Rule:      "case = one (password bytes, index bytes) pair handed to Tokenize after a storage fault; distinct by hash of the pair; non-trivial = the pair differs from the intact record or is free-form",
+		Technique:   "deterministic simulation of the client-side index store with storage-fault enumeration (every truncation, single-bit flip, kind byte, byte drop/dup/swap per sampled record) plus seeded multi-fault and free-form search; model decoder as oracle",
+		Rule:        "case = one (password bytes, index bytes) pair handed to Tokenize after a storage fault; distinct by hash of the pair; non-trivial = the pair differs from the intact record or is free-form",
 		Assumptions: []string{"a character is an element of strings.Split(s, \"\") (the unit the API documents)", "surplus bytes after a character-kind byte are unspecified (don't-care)"},
 		Episodes:    map[string]int{"quick": 4800, "thorough": 1200000},
 		TwiceEvery:  7,
@@ -589,8 +589,8 @@ func buildViaTokenize(ts []Tok, ent float32) (*spg.Password, error) {
 func init() {
 	register(&CheckDef{
 		ID: "C11", Level: "exploration",
-		Technique: "deterministic simulation (fault-free configuration of the simulated index store): every password produced by seeded simulated generations and every token sequence built through Tokenize is written and read back",
-		Rule:      "case = one token sequence (from a simulated generation or built through Tokenize) encoded with MakeIndices and decoded with Tokenize; distinct by hash of the typed token sequence; non-trivial = at least one token of more than one character or a non-atom token or a multi-byte character",
+		Technique:   "deterministic simulation (fault-free configuration of the simulated index store): every password produced by seeded simulated generations and every token sequence built through Tokenize is written and read back",
+		Rule:        "case = one token sequence (from a simulated generation or built through Tokenize) encoded with MakeIndices and decoded with Tokenize; distinct by hash of the typed token sequence; non-trivial = at least one token of more than one character or a non-atom token or a multi-byte character",
 		Assumptions: []string{"a character is an element of strings.Split(s, \"\")", "zero-length tokens are outside the property (don't-care)", "token sequences with arbitrary types are obtained through Tokenize with a full index, the only public constructor besides Generate"},
 		Episodes:    map[string]int{"quick": 12000, "thorough": 6400000},
 		TwiceEvery:  5,
